@@ -3,10 +3,22 @@ use crate::core::{Ctx, Report};
 
 pub mod common;
 pub mod c01;
+pub mod c02;
+pub mod c03;
+pub mod c05;
+pub mod c12;
+pub mod stmt;
 
 pub fn run(prop: &str, ctx: &Ctx) -> Option<Report> {
     Some(match prop {
         "C01" => c01::run(ctx),
+        "C02" => c02::run(ctx),
+        "C03" => c03::run(ctx),
+        "C05" => c05::run(ctx),
+        "C10" => stmt::run_c10(ctx),
+        "C12" => c12::run(ctx),
+        "C16" => stmt::run_c16(ctx),
+        "C17" => stmt::run_c17(ctx),
         _ => return None,
     })
 }
